@@ -751,3 +751,121 @@ Lemma glsl_bitcast_f32_i32_correct es a : teval es (t_call1 "floatBitsToInt") (e
 Proof. tred. reflexivity. Qed.
 Lemma glsl_bitcast_f32_u32_correct es a : teval es (t_call1 "floatBitsToUint") (e1 (VF32 a)) = Done (VU32 a).
 Proof. tred. reflexivity. Qed.
+
+(* ================= vector shapes: component-wise templates =================
+   The vector forms of the arithmetic templates apply the scalar operator to corresponding components (GLSL 5.9),
+   which is what the IR semantics does (Values.lift2): vector correctness reduces to the scalar lemmas above. *)
+Lemma zip_res_ext (f g : value -> value -> result value) l1 l2 :
+  (forall x y, In (x, y) (combine l1 l2) -> f x y = g x y) -> zip_res f l1 l2 = zip_res g l1 l2.
+Proof.
+  revert l2. induction l1 as [|x l1 IH]; intros [|y l2] H; try reflexivity.
+  cbn [zip_res]. rewrite (H x y) by (left; reflexivity). destruct (g x y); try reflexivity.
+  cbn [rbind]. rewrite IH; [reflexivity|]. intros; apply H; right; assumption.
+Qed.
+
+Definition arith_op (o : binop) : bool := match o with BAdd | BSub | BMul | BDiv | BMod => true | _ => false end.
+
+Lemma ev_vec_arith_i32 es o a za b zb : arith_op o = true ->
+  teval es (t_bin o) (e2 (VVec (VI32 a :: za)) (VVec (VI32 b :: zb)))
+  = (vs <~ zip_res (arith_s o) (VI32 a :: za) (VI32 b :: zb) ;; Done (VVec vs)).
+Proof.
+  intros Ho. destruct o; try discriminate Ho;
+  unfold teval, t_bin, va, vb, e2, env, P0;
+  cbn [eval_expr map fst snd lookup scopes_find sc_find st_scopes st_globals String.eqb Ascii.eqb Bool.eqb is_poison rbind p_es
+       eval_binop is_mat orb unify base_kind kind_of_scalar sk_eqb lift2];
+  destruct (zip_res _ (VI32 a :: za) (VI32 b :: zb)); reflexivity.
+Qed.
+Lemma ev_vec_arith_u32 es o a za b zb : arith_op o = true ->
+  teval es (t_bin o) (e2 (VVec (VU32 a :: za)) (VVec (VU32 b :: zb)))
+  = (vs <~ zip_res (arith_s o) (VU32 a :: za) (VU32 b :: zb) ;; Done (VVec vs)).
+Proof.
+  intros Ho. destruct o; try discriminate Ho;
+  unfold teval, t_bin, va, vb, e2, env, P0;
+  cbn [eval_expr map fst snd lookup scopes_find sc_find st_scopes st_globals String.eqb Ascii.eqb Bool.eqb is_poison rbind p_es
+       eval_binop is_mat orb unify base_kind kind_of_scalar sk_eqb lift2];
+  destruct (zip_res _ (VU32 a :: za) (VU32 b :: zb)); reflexivity.
+Qed.
+
+(* the IR meaning of a component-wise binary operator on two vectors is Values.lift2 of the scalar meaning *)
+Theorem glsl_vec_arith_i32_correct es o o' a za b zb : arith_op o = true ->
+  (forall x y, In (x, y) (combine (VI32 a :: za) (VI32 b :: zb)) -> arith_s o x y = arith_scalar o' x y) ->
+  teval es (t_bin o) (e2 (VVec (VI32 a :: za)) (VVec (VI32 b :: zb)))
+  = lift2 (arith_scalar o') (VVec (VI32 a :: za)) (VVec (VI32 b :: zb)).
+Proof. intros Ho H. rewrite ev_vec_arith_i32 by assumption. unfold lift2. rewrite (zip_res_ext _ _ _ _ H). reflexivity. Qed.
+Theorem glsl_vec_arith_u32_correct es o o' a za b zb : arith_op o = true ->
+  (forall x y, In (x, y) (combine (VU32 a :: za) (VU32 b :: zb)) -> arith_s o x y = arith_scalar o' x y) ->
+  teval es (t_bin o) (e2 (VVec (VU32 a :: za)) (VVec (VU32 b :: zb)))
+  = lift2 (arith_scalar o') (VVec (VU32 a :: za)) (VVec (VU32 b :: zb)).
+Proof. intros Ho H. rewrite ev_vec_arith_u32 by assumption. unfold lift2. rewrite (zip_res_ext _ _ _ _ H). reflexivity. Qed.
+
+Definition ints (l : list Z) : list value := map VI32 l.
+Definition uints (l : list Z) : list value := map VU32 l.
+
+Lemma in_combine_ints x y la lb : In (x, y) (combine (ints la) (ints lb)) -> exists p q, x = VI32 p /\ y = VI32 q /\ In (p, q) (combine la lb).
+Proof.
+  revert lb. induction la as [|a la IH]; intros [|b lb] H; try contradiction.
+  destruct H as [H|H]; [inversion H; exists a, b; repeat split; left; reflexivity|].
+  destruct (IH lb H) as (p & q & ? & ? & ?). exists p, q. repeat split; try assumption. right; assumption.
+Qed.
+Lemma in_combine_uints x y la lb : In (x, y) (combine (uints la) (uints lb)) -> exists p q, x = VU32 p /\ y = VU32 q /\ In (p, q) (combine la lb).
+Proof.
+  revert lb. induction la as [|a la IH]; intros [|b lb] H; try contradiction.
+  destruct H as [H|H]; [inversion H; exists a, b; repeat split; left; reflexivity|].
+  destruct (IH lb H) as (p & q & ? & ? & ?). exists p, q. repeat split; try assumption. right; assumption.
+Qed.
+
+(* vecN<i32> / vecN<u32> for every N (the lists are the components; naga emits N = 2, 3, 4) *)
+Theorem glsl_add_i32_vec_correct es a la b lb :
+  teval es (t_bin BAdd) (e2 (VVec (ints (a :: la))) (VVec (ints (b :: lb)))) = lift2 (arith_scalar OAdd) (VVec (ints (a :: la))) (VVec (ints (b :: lb))).
+Proof.
+  apply (glsl_vec_arith_i32_correct es BAdd OAdd a (ints la) b (ints lb)); [reflexivity|].
+  intros x y H. destruct (in_combine_ints x y (a :: la) (b :: lb) H) as (p & q & -> & -> & _). reflexivity.
+Qed.
+Theorem glsl_sub_i32_vec_correct es a la b lb :
+  teval es (t_bin BSub) (e2 (VVec (ints (a :: la))) (VVec (ints (b :: lb)))) = lift2 (arith_scalar OSub) (VVec (ints (a :: la))) (VVec (ints (b :: lb))).
+Proof.
+  apply (glsl_vec_arith_i32_correct es BSub OSub a (ints la) b (ints lb)); [reflexivity|].
+  intros x y H. destruct (in_combine_ints x y (a :: la) (b :: lb) H) as (p & q & -> & -> & _). reflexivity.
+Qed.
+Theorem glsl_mul_i32_vec_correct es a la b lb :
+  teval es (t_bin BMul) (e2 (VVec (ints (a :: la))) (VVec (ints (b :: lb)))) = lift2 (arith_scalar OMul) (VVec (ints (a :: la))) (VVec (ints (b :: lb))).
+Proof.
+  apply (glsl_vec_arith_i32_correct es BMul OMul a (ints la) b (ints lb)); [reflexivity|].
+  intros x y H. destruct (in_combine_ints x y (a :: la) (b :: lb) H) as (p & q & -> & -> & _). reflexivity.
+Qed.
+Theorem glsl_div_i32_vec_correct es a la b lb :
+  (forall p q, In (p, q) (combine (a :: la) (b :: lb)) -> in32 p /\ in32 q /\ defined_div_i32 p q) ->
+  teval es (t_bin BDiv) (e2 (VVec (ints (a :: la))) (VVec (ints (b :: lb)))) = lift2 (arith_scalar ODiv) (VVec (ints (a :: la))) (VVec (ints (b :: lb))).
+Proof.
+  intros D. apply (glsl_vec_arith_i32_correct es BDiv ODiv a (ints la) b (ints lb)); [reflexivity|].
+  intros x y H. destruct (in_combine_ints x y (a :: la) (b :: lb) H) as (p & q & -> & -> & Hin).
+  destruct (D p q Hin) as (Hp & Hq & Hd). cbn [arith_s arith_scalar]. rewrite g_div_i_ok by assumption. reflexivity.
+Qed.
+Theorem glsl_rem_i32_vec_correct es a la b lb :
+  (forall p q, In (p, q) (combine (a :: la) (b :: lb)) -> in32 p /\ in32 q /\ defined_rem_i32 p q) ->
+  teval es (t_bin BMod) (e2 (VVec (ints (a :: la))) (VVec (ints (b :: lb)))) = lift2 (arith_scalar ORem) (VVec (ints (a :: la))) (VVec (ints (b :: lb))).
+Proof.
+  intros D. apply (glsl_vec_arith_i32_correct es BMod ORem a (ints la) b (ints lb)); [reflexivity|].
+  intros x y H. destruct (in_combine_ints x y (a :: la) (b :: lb) H) as (p & q & -> & -> & Hin).
+  destruct (D p q Hin) as (Hp & Hq & Hd). cbn [arith_s arith_scalar]. rewrite g_mod_i_ok by assumption. reflexivity.
+Qed.
+Theorem glsl_add_u32_vec_correct es a la b lb :
+  teval es (t_bin BAdd) (e2 (VVec (uints (a :: la))) (VVec (uints (b :: lb)))) = lift2 (arith_scalar OAdd) (VVec (uints (a :: la))) (VVec (uints (b :: lb))).
+Proof.
+  apply (glsl_vec_arith_u32_correct es BAdd OAdd a (uints la) b (uints lb)); [reflexivity|].
+  intros x y H. destruct (in_combine_uints x y (a :: la) (b :: lb) H) as (p & q & -> & -> & _). reflexivity.
+Qed.
+Theorem glsl_mul_u32_vec_correct es a la b lb :
+  teval es (t_bin BMul) (e2 (VVec (uints (a :: la))) (VVec (uints (b :: lb)))) = lift2 (arith_scalar OMul) (VVec (uints (a :: la))) (VVec (uints (b :: lb))).
+Proof.
+  apply (glsl_vec_arith_u32_correct es BMul OMul a (uints la) b (uints lb)); [reflexivity|].
+  intros x y H. destruct (in_combine_uints x y (a :: la) (b :: lb) H) as (p & q & -> & -> & _). reflexivity.
+Qed.
+Theorem glsl_div_u32_vec_correct es a la b lb :
+  (forall p q, In (p, q) (combine (a :: la) (b :: lb)) -> defined_div_u32 p q) ->
+  teval es (t_bin BDiv) (e2 (VVec (uints (a :: la))) (VVec (uints (b :: lb)))) = lift2 (arith_scalar ODiv) (VVec (uints (a :: la))) (VVec (uints (b :: lb))).
+Proof.
+  intros D. apply (glsl_vec_arith_u32_correct es BDiv ODiv a (uints la) b (uints lb)); [reflexivity|].
+  intros x y H. destruct (in_combine_uints x y (a :: la) (b :: lb) H) as (p & q & -> & -> & Hin).
+  cbn [arith_s arith_scalar]. rewrite g_div_u_ok by (apply D; assumption). reflexivity.
+Qed.
